@@ -58,7 +58,7 @@ PROBES = ['async_iteration', 'mode_reader', 'mode_run', 'mode_redirect', 'text_m
           'incomplete_read_at_eof', 'limit_overrun', 'exit_signal',
           'exit_status', 'redirect_process', 'redirect_file',
           'redirect_stream', 'redirect_async_file',
-          'drain_on_redirected_stream']
+          'drain_on_redirected_stream', 'server_hung_up_after_close']
 
 ALPHA_B = [b'a', b'b', b'c', b'\n', b'\n', b';', b',', b'\r', b'x', b'::']
 ALPHA_T = ['a', 'b', '\n', '\n', ';', ',', '\r', 'é', '€', '😀', '::', 'ß']
@@ -109,6 +109,10 @@ def gen_chunks(rng, total):
 def gen_prog(rng):
     prog = []
 
+    if rng.chance(25):
+        # a slow consumer: nothing is read for a good while
+        prog.append(['z', rng.choice([5, 20, 60])])
+
     for _ in range(rng.between(1, 12)):
         k = rng.weighted([('read', 30), ('exactly', 15), ('line', 15),
                           ('until', 25), ('y', 15)])
@@ -124,6 +128,11 @@ def gen_prog(rng):
 
     # the rest of the stream: everything at once, or line by line through
     # the reader's async iterator
+    if rng.chance(30):
+        # ... or falls behind at the end, when the last data, EOF, exit
+        # status and close are arriving
+        prog.append(['z', rng.choice([5, 20, 60])])
+
     prog.append(['readall'] if rng.chance(75) else ['aiter'])
     return prog
 
@@ -151,6 +160,9 @@ def gen_plan(rng):
         'prog_out': gen_prog(rng), 'prog_err': gen_prog(rng),
         'prog_in': gen_prog(rng),
         'drain': rng.chance(40),
+        # the server drops the connection as soon as the command's channel
+        # is closed from both sides (the client may still hold unread data)
+        'srv_hangup': rng.chance(20),
     }
     plan['out_chunks'] = gen_chunks(rng, n_out)
     plan['err_chunks'] = gen_chunks(rng, n_err)
@@ -188,7 +200,11 @@ def valid_plan(plan):
 
             for op in prog:
                 if op[0] not in ('read', 'exactly', 'line', 'until', 'y',
-                                 'readall', 'aiter'):
+                                 'z', 'readall', 'aiter'):
+                    return False
+
+                if op[0] == 'z' and (len(op) != 2 or
+                                     not 0 <= op[1] <= 200):
                     return False
 
                 if op[0] in ('read', 'exactly') and \
@@ -406,6 +422,12 @@ async def run_program(world, name, reader, prog, ref, sep_compile):
             await sim.pause('rd:' + name)
             continue
 
+        if kind == 'z':
+            for _ in range(op[1]):
+                await sim.pause('rd:' + name)
+
+            continue
+
         result = exc = None
 
         try:
@@ -566,6 +588,18 @@ def run_plan(plan, sched_seed=None, sched_replay=None):
             await stdin_task
 
         ex = plan['exit']
+
+        # (only where the command's channel is the only one in use)
+        if plan.get('srv_hangup') and cmd == 'cmd' and \
+                mode in ('reader', 'run'):
+            sconn = process.get_extra_info('connection')
+
+            async def hang_up():
+                await process.wait_closed()
+                sim.probes['server_hung_up_after_close'] += 1
+                sconn.close()
+
+            sim.track('srv-hangup', hang_up())
 
         if ex[0] == 'status':
             process.exit(ex[1])
